@@ -20,7 +20,9 @@ ENUMS = [['vlab.tasks_core', 'Color', 'RED'], ['vlab.tasks_core', 'Color', 'GREE
          ['vlab.tasks_alt', 'Color', 'RED'], ['vlab.tasks_alt', 'Color', 'GREEN'],
          ['vlab.tasks_core', 'Level', 'LOW'], ['vlab.tasks_core', 'Level', 'HIGH'], ['vlab.tasks_core', 'Level', 'ZERO'],
          ['vlab.tasks_core', 'Mode', 'A'], ['vlab.tasks_core', 'Mode', 'RED'], ['vlab.tasks_core', 'Mode', 'EMPTY'],
-         ['vlab.tasks_core', 'Perm', 'R'], ['vlab.tasks_core', 'Perm', 'W']]
+         ['vlab.tasks_core', 'Perm', 'R'], ['vlab.tasks_core', 'Perm', 'W'],
+         ['vlab.tasks_core', 'Train.Mode', 'FAST'], ['vlab.tasks_core', 'Train.Mode', 'SLOW'],
+         ['vlab.tasks_core', 'Evaluate.Mode', 'FAST'], ['vlab.tasks_core', 'Evaluate.Mode', 'FULL']]
 TASKS = [['vlab.tasks_core', 'VA'], ['vlab.tasks_core', 'VB'], ['vlab.tasks_core', 'VAX'],
          ['vlab.tasks_alt', 'VA'], ['vlab.tasks_core', 'VJ'], ['vlab.tasks_core', 'VP'], ['vlab.tasks_core', 'VU']]
 KEYS = ['a', 'b', 'k', '', 'é', 'name', 'is_task', 'x.y', '0', 'p']
@@ -68,7 +70,10 @@ def realize(desc):
         return float(desc['f'])
     if 'e' in desc:
         m, c, name = desc['e']
-        return getattr(importlib.import_module(m), c)[name]
+        cls = importlib.import_module(m)
+        for part in c.split('.'):       # enum classes may be nested in other classes
+            cls = getattr(cls, part)
+        return cls[name]
     if 'l' in desc:
         return [realize(x) for x in desc['l']]
     if 't' in desc:
